@@ -4,7 +4,7 @@ regenerated from read_cgsmiles.py) compared with the implementation on every run
 `prop_fail` (theories/Reader/ReaderCheck.v) compares what the IMPLEMENTATION returned with the
 denotation of the grammar AST (theories/Reader/Grammar.v), inside Coq.
 Generator classes: random grammar ASTs (with and without braces, with node multipliers), the
-exhaustive list of small ASTs, fault-injected ASTs (unclosed ring, duplicate ring bond) and token
+exhaustive list of small ASTs, fault-injected ASTs (unclosed ring, ring bond duplicating a chain edge, two ring bonds between the same nodes) and token
 soups (the last two: correspondence only)."""
 import re
 
@@ -151,7 +151,7 @@ class C04(common.Prop):
                 out.append(ast_case(G.rand_ast(rng, size=size, p_nmult=0.3), rng.random() < 0.8, True, 'random-nodemult'))
             elif r < 0.88:
                 a = G.rand_ast(rng, size=size, p_nmult=0.1)
-                f = (G.inject_unclosed_ring if rng.random() < 0.5 else G.inject_duplicate_edge)(rng, a)
+                f = rng.choice([G.inject_unclosed_ring, G.inject_duplicate_edge, G.inject_double_ring])(rng, a)
                 out.append(ast_case(f or a, rng.random() < 0.8, False, 'fault-injected'))
             else:
                 out.append(raw_case(soup(rng), 'soup'))
